@@ -288,6 +288,7 @@ class Obligation:
     wall_cap_s: float = 600.0
     abs_fork: bool = False    # |x| of a real symbolic x forks on the sign instead of creating a symbol
     weight: int = 1
+    dtype_variants: bool = True    # run storage-type variants (float64 / int64 first operand) of a generic point after discharge
     mutable_inputs: bool = False   # True only if the function is documented to modify its arguments in place
     witness: Callable[[], list] | None = None   # concrete inputs satisfying the precondition, tried during replay
     exact_sqrt: bool = False  # np.sqrt of a plain non-square rational inside toqito returns the algebraic number (symbol s, s*s -> x)
@@ -465,6 +466,20 @@ def run_obligation(ob: Obligation, seed=0):
                         break
             except SymError:
                 pass
+        if rec["status"] == "discharged" and ob.dtype_variants:
+            # storage-type variants of a generic point through the real code on plain numpy arrays: object arrays cannot show
+            # what a cast does (a real first operand deciding the result dtype, integer arrays truncating on assignment)
+            try:
+                for label, ninputs in dtype_variants(ob, ctx, inputs, seed):
+                    ok, detail = numeric_verdict(ob, ninputs)
+                    rec["dtype_variants"] = rec.get("dtype_variants", 0) + 1
+                    if not ok:
+                        rec["status"] = "violation"
+                        rec["violation"] = {"source": f"storage-type variant of a generic point ({label}); symbolic execution on object arrays discharged the obligation",
+                                            "inputs": jsonable(ninputs), **detail}
+                        break
+            except SymError:
+                pass
         if ob.tv and rec["status"] in ("discharged", "inconclusive"):
             tv = translator_validation(ob, seed)
             rec["tv"] = tv if not isinstance(tv, dict) else False
@@ -615,6 +630,126 @@ def replay_candidates(ob, ctx, inputs, cand_vals, seed):
             return {"source": "solver model" if k < len(cand_vals) else ("generic point after solver sat" if k < len(tries) else "harness witness after solver sat"),
                     "inputs": jsonable(ninputs), **detail}
     return None
+
+
+def _array_leaves(x, path=()):
+    if isinstance(x, np.ndarray) and x.dtype.kind in "fc":
+        yield path
+    elif isinstance(x, (list, tuple)):
+        for k, v in enumerate(x):
+            yield from _array_leaves(v, path + (k,))
+    elif isinstance(x, dict):
+        for k, v in x.items():
+            yield from _array_leaves(v, path + (k,))
+
+
+def _replace_leaf(x, path, fn):
+    if not path:
+        return fn(x)
+    k = path[0]
+    if isinstance(x, dict):
+        return {a: (_replace_leaf(b, path[1:], fn) if a == k else b) for a, b in x.items()}
+    out = [(_replace_leaf(b, path[1:], fn) if a == k else b) for a, b in enumerate(x)]
+    return tuple(out) if isinstance(x, tuple) else out
+
+
+def _preconditions_hold(ob, ninputs):
+    """numeric inputs are only used if the obligation's own precondition can be evaluated on them and holds"""
+    try:
+        if ob.valid is not None:
+            return bool(ob.valid(ninputs))
+        if ob.assume is None:
+            return True
+        for c in ob.assume(ninputs):
+            if isinstance(c, SymBool):
+                if c.const is not True:
+                    return False
+            elif not bool(c):
+                return False
+        return True
+    except SymError:
+        raise
+    except Exception:  # noqa: BLE001
+        return False
+
+
+def _get_leaf(x, path):
+    for k in path:
+        x = x[k]
+    return x
+
+
+def dtype_variants(ob, ctx, inputs, seed):
+    """(label, inputs) pairs: the SAME mathematical point stored differently.  (a) a generic rational point at which the first
+    array operand is real (the atoms of its imaginary parts set to 0), that operand stored as float64; (b) a generic integer
+    point, first operand stored as int64.  All other inputs are evaluated from the same atom values, so relations between
+    inputs built from shared symbols are preserved; a variant is used only if the first operand really is real / integer at
+    the point and the obligation's precondition holds there."""
+    rnd = random.Random(seed + 23)
+
+    def point(integer, zero_atoms=()):
+        vals = {}
+        for a in ctx.atoms:
+            if a.kind == "var":
+                vals[a.id] = Fraction(0) if a.id in zero_atoms else (Fraction(rnd.randint(-6, 6)) if integer else Fraction(rnd.randint(-12, 12), 4))
+        for a in ctx.atoms:
+            if a.kind != "var":
+                try:
+                    vals[a.id] = a.evalf(vals) if a.evalf else 0
+                except Exception:  # noqa: BLE001
+                    vals[a.id] = 0
+        return vals
+    try:
+        base = to_numeric(inputs, point(False), {})
+    except SymError:
+        raise
+    except Exception:  # noqa: BLE001
+        return
+    leaves = list(_array_leaves(base))
+    if not leaves:
+        return
+    first = leaves[0]
+    sym_first = _get_leaf(inputs, first)
+    im_atoms = set()
+    if isinstance(sym_first, np.ndarray) and sym_first.dtype == object:
+        for v in sym_first.flat:
+            if isinstance(v, Sym):
+                im_atoms |= set(v.im.atoms())
+    out = []
+    for label, integer, zero in (("first array operand real at the point and stored with dtype float64", False, im_atoms),
+                                 ("integer point, first array operand stored with dtype int64", True, im_atoms)):
+        try:
+            ni = to_numeric(inputs, point(integer, zero), {})
+        except SymError:
+            raise
+        except Exception:  # noqa: BLE001
+            continue
+        arr = _get_leaf(ni, first)
+        if not isinstance(arr, np.ndarray) or arr.dtype.kind not in "fc" or not np.all(np.isfinite(arr)):
+            continue
+        if np.iscomplexobj(arr) and np.any(arr.imag != 0):
+            continue
+        re = np.ascontiguousarray(np.real(arr), dtype=float)
+        if integer:
+            if np.any(re != np.rint(re)):
+                continue
+            re = re.astype(np.int64)
+        elif arr.dtype.kind == "f":
+            continue          # already a float64 array at generic points: nothing new to show
+        ni = _replace_leaf(ni, first, lambda a, re=re: re)
+        if _preconditions_hold(ob, ni):
+            out.append((label, ni))
+        if integer:
+            # every array operand that is real and integer valued at the point stored as int64
+            nj = ni
+            for p in leaves[1:]:
+                arr = _get_leaf(nj, p)
+                if isinstance(arr, np.ndarray) and arr.dtype.kind in "fc" and np.all(np.isfinite(arr)) and not np.any(np.imag(arr) != 0) \
+                        and not np.any(np.real(arr) != np.rint(np.real(arr))):
+                    nj = _replace_leaf(nj, p, lambda a: np.real(a).astype(np.int64))
+            if len(leaves) > 1 and _preconditions_hold(ob, nj):
+                out.append(("integer point, every real integer-valued array operand stored with dtype int64", nj))
+    yield from out
 
 
 def translator_validation(ob, seed):
